@@ -1,5 +1,5 @@
 """Per-property stage tables (see DESIGN.md section 3)."""
-from driver import Stage, tsan_post
+from driver import Stage, tsan_post, memcheck_post
 
 R = 'librfn/'
 UTIL = [R + 'util.c', R + 'posix/time_posix.c', R + 'string.c']
@@ -710,3 +710,25 @@ PROPS['C01']['rule'] += (' isr-*/co: the C06 scenario family plus two plain wait
                          'overlap, for different fibres, the later one for a fibre with no other reason to run, the '
                          'earlier one is served first (order of arrival), and no accepted request is lost.')
 PROPS['C01']['engine'] = 'E1+E2'
+
+
+# engine E4: real asynchronous (nested) signals against the scheduler, ASan+UBSan build
+PROPS['C06']['stages'].append(
+    Stage('signals-asan', ['harness/threads.c'], THR_ALL, preset='asan', nproc=2, libs=['-lrt'],
+          args={'quick': ['--extra', 'signal', '--cases', '1'], 'thorough': ['--extra', 'signal', '--cases', '3']},
+          needs_min={'signal_events_handed_over': 4000, 'signals_delivered': 4000},
+          timeout={'quick': 600, 'thorough': 3600}))
+PROPS['C06']['rule'] += (' signals-asan (engine E4): two POSIX interval timers deliver SIGUSR1/SIGUSR2 at pseudo-random '
+                         '15-265 us intervals to the thread running the scheduler, the handlers nest and post events '
+                         'and wake-ups (instruction-granular preemption); same quiescence oracle.')
+PROPS['C06']['engine'] = 'E2+E3+E4'
+
+
+# valgrind memcheck over the decoder and helpers (branch on uninitialised data is invisible to ASan); thorough only
+PROPS['C14']['stages'].append(
+    Stage('memcheck', ['harness/wav.c'], WAV, preset='plain', nproc=8, tiers=('thorough',),
+          wrapper=['valgrind', '-q', '--error-exitcode=0', '--log-file={bdir}/memcheck.{i}', '--track-origins=no'],
+          args={'thorough': ['--extra', 'fuzz', '--cases', '24000']}, post=memcheck_post, env={'VH_NO_PREFILL': '1'},
+          needs_min={'decodes_judged': 20000}, timeout={'thorough': 3600}))
+PROPS['C14']['rule'] += (' memcheck (thorough): 24000 of the same fuzz cases under valgrind memcheck on a non-ASan build '
+                         '(use of uninitialised values in the decoder and helper functions).')
